@@ -367,5 +367,488 @@ theorem hoffGo_post (init0 : Nat) (bs : Bytes) : ∀ (x : Nat) (prev : UInt8) (s
       rw [← e]; exact hp
 
 
+/-! ### buffer.c growth -/
+
+theorem pow2From_spec : ∀ (fuel sz psz : Nat), 0 < sz → psz ≤ sz * 2 ^ fuel →
+    psz ≤ pow2From fuel sz psz ∧ (pow2From fuel sz psz = sz ∨ pow2From fuel sz psz < 2 * psz) := by
+  intro fuel
+  induction fuel with
+  | zero => intro sz psz h0 h; simp only [pow2From]; simp at h; exact ⟨h, Or.inl trivial⟩
+  | succ fuel ih =>
+    intro sz psz h0 h
+    simp only [pow2From]
+    by_cases hlt : sz < psz
+    · simp only [if_pos hlt]
+      have e : sz * 2 ^ (fuel + 1) = sz * 2 * 2 ^ fuel := by
+        rw [Nat.pow_succ, Nat.mul_assoc, Nat.mul_comm (2 ^ fuel) 2]
+      obtain ⟨h1, h2⟩ := ih (sz * 2) psz (by omega) (by rw [← e]; exact h)
+      refine ⟨h1, Or.inr ?_⟩
+      rcases h2 with h2 | h2 <;> omega
+    · simp only [if_neg hlt]
+      exact ⟨by omega, Or.inl trivial⟩
+
+theorem piece_eq : Extracted.bufferPieceSize = 64 := by decide
+theorem cIntMax_eq : Extracted.cIntMax = 2147483647 := by decide
+
+theorem or_one_bounds (x : Nat) (h : x < 4294967296) : x ≤ x ||| 1 ∧ x ||| 1 < 4294967296 := by
+  refine ⟨Nat.left_le_or, ?_⟩
+  have := @Nat.or_lt_two_pow x 1 32 (by simpa using h) (by decide)
+  simpa using this
+
+/-- buffer_realloc(): for requests up to 2^32-65 the force_assert holds, the allocation has room
+    for `len` bytes plus the NUL, and the size fits the 32-bit field (nothing is truncated) -/
+theorem bufReallocSz_spec (len : Nat) (h : len ≤ 4294967231) :
+    ∃ sz, bufReallocSz len = some sz ∧ len + 1 ≤ sz ∧ sz ≤ 4294967295 := by
+  unfold bufReallocSz
+  simp only [piece_eq, cIntMax_eq, wrapSz, uszMax_eq]
+  have hw : (len + 1 + (64 - 1)) % (18446744073709551615 + 1) = len + 64 := by
+    rw [Nat.mod_eq_of_lt] <;> omega
+  rw [hw]
+  generalize hq : (len + 64) / 64 * 64 = q
+  have hq1 : len + 1 ≤ q := by omega
+  have hq2 : q ≤ len + 64 := by omega
+  have hgt : ¬ ((!decide (q > len)) = true) := by simp; omega
+  simp only [if_neg hgt]
+  by_cases hc : (decide (q &&& (q - 1) ≠ 0) && decide (q < 2147483647)) = true
+  · simp only [if_pos hc]
+    have hlt : q < 2147483647 := by
+      simp only [Bool.and_eq_true, decide_eq_true_eq] at hc; exact hc.2
+    obtain ⟨h1, h2⟩ := pow2From_spec 64 256 q (by omega) (by simp only [Nat.reducePow]; omega)
+    have hr : pow2From 64 256 q < 4294967296 := by rcases h2 with h2 | h2 <;> omega
+    have := or_one_bounds _ hr
+    exact ⟨_, rfl, by omega, by omega⟩
+  · simp only [if_neg hc]
+    have := or_one_bounds q (by omega)
+    exact ⟨_, rfl, by omega, by omega⟩
+
+theorem bufRealloc_spec (b : Buf) (len : Nat) (h : len ≤ 4294967231) :
+    ∃ sz, bufRealloc b len = .ok { b with size := sz } ∧ len + 1 ≤ sz ∧ sz ≤ 4294967295 := by
+  obtain ⟨sz, h1, h2, h3⟩ := bufReallocSz_spec len h
+  refine ⟨sz, ?_, h2, h3⟩
+  simp only [bufRealloc, h1, wrap32, u32Max_eq]
+  rw [Nat.mod_eq_of_lt (by omega)]
+
+theorem bsize2x_bounds (size : Nat) : size - 1 ≤ bsize2x size / 2 ∧ bsize2x size ≤ 2 * size ∧ bsize2x size % 4 = 0 := by
+  unfold bsize2x; omega
+
+
+theorem bufLen_le (b : Buf) (hwf : b.used ≤ b.size) : bufLen b ≤ b.size := by
+  unfold bufLen; split <;> omega
+
+theorem hasRoom_iff (b : Buf) (n : Nat) (hwf : b.used ≤ b.size) (hs : b.size ≤ 4294967295)
+    (hn : n < 18446744073709551615) : hasRoom b n = true ↔ bufLen b + n + 1 ≤ b.size := by
+  have hl := bufLen_le b hwf
+  simp only [hasRoom, wrap32, wrapSz, u32Max_eq, uszMax_eq, decide_eq_true_eq]
+  rw [Nat.mod_eq_of_lt (a := n + 1) (by omega)]
+  omega
+
+theorem decSz_pos (x : Nat) (h1 : 0 < x) (h2 : x ≤ 18446744073709551615) : decSz x = x - 1 := by
+  simp only [decSz, wrapSz, uszMax_eq]; omega
+
+/-- buffer_string_prepare_append(): within the supported domain (current size below 2^31-32,
+    resulting length at most 2^32-65) no assertion fires, the size arithmetic does not wrap, the
+    recorded size fits its 32-bit field, the string is kept and there is room for `n` more bytes
+    plus the terminating NUL. -/
+theorem prepareAppend_spec (b : Buf) (n : Nat) (hwf : b.used ≤ b.size) (hsz : b.size ≤ 2147483616)
+    (hn : b.used + n ≤ 4294967231) :
+    ∃ b', prepareAppend b n = .ok b' ∧ bufLen b' = bufLen b ∧ bufLen b' + n + 1 ≤ b'.size ∧
+      b'.used ≤ b'.size ∧ b'.size ≤ 4294967295 ∧ (b'.used = b.used ∨ (b.used = 1 ∧ b'.used = 0)) := by
+  unfold prepareAppend
+  by_cases hr : hasRoom b n = true
+  · simp only [if_pos hr]
+    have := (hasRoom_iff b n hwf (by omega) (by omega)).mp hr
+    exact ⟨b, rfl, rfl, this, hwf, by omega, Or.inl rfl⟩
+  · simp only [if_neg hr]
+    have hnr : ¬ (bufLen b + n + 1 ≤ b.size) := fun h => hr ((hasRoom_iff b n hwf (by omega) (by omega)).mpr h)
+    have hb2 := bsize2x_bounds b.size
+    unfold prepareAppendResize
+    by_cases hu : b.used < 2
+    · simp only [if_pos hu, prepareCopy]
+      have hl0 : bufLen b = 0 := by unfold bufLen; split <;> omega
+      by_cases hns : n < b.size
+      · simp only [if_pos hns]
+        refine ⟨⟨0, b.size⟩, rfl, ?_, ?_, by simp, by simp only; omega, ?_⟩
+        · rw [hl0]; simp [bufLen]
+        · simp only [bufLen]; simp; omega
+        · simp; omega
+      · simp only [if_neg hns]
+        generalize harg : (if bsize2x b.size > n then decSz (bsize2x b.size) else n) = arg
+        have harg' : n ≤ arg ∧ arg ≤ 4294967231 := by
+          split at harg
+          · rw [decSz_pos _ (by omega) (by omega)] at harg; omega
+          · omega
+        obtain ⟨sz, h1, h2, h3⟩ := bufRealloc_spec ⟨0, b.size⟩ arg harg'.2
+        refine ⟨_, h1, ?_, ?_, by simp, by simp only; omega, ?_⟩
+        · rw [hl0]; simp [bufLen]
+        · simp only [bufLen]; simp; omega
+        · simp; omega
+    · simp only [if_neg hu]
+      have hlen : bufLen b = b.used - 1 := by unfold bufLen; split <;> omega
+      have hd : wrapSz (bsize2x b.size + (uszMax + 1) - b.used) = bsize2x b.size - b.used := by
+        simp only [wrapSz, uszMax_eq]; omega
+      rw [hd]
+      generalize hreq : (if bsize2x b.size - b.used > n then decSz (bsize2x b.size) else wrapSz (b.used + n)) = req
+      have hreq' : b.used ≤ req ∧ req ≤ 4294967231 ∧ b.used + n ≤ req + 1 := by
+        split at hreq
+        · rw [decSz_pos _ (by omega) (by omega)] at hreq; omega
+        · simp only [wrapSz, uszMax_eq] at hreq; omega
+      have hge : ¬ ((!decide (req ≥ b.used)) = true) := by simp; omega
+      simp only [if_neg hge]
+      obtain ⟨sz, h1, h2, h3⟩ := bufRealloc_spec b req hreq'.2.1
+      refine ⟨_, h1, ?_, ?_, (by show b.used ≤ sz; omega), (by show sz ≤ 4294967295; omega), Or.inl rfl⟩
+      · simp [bufLen]
+      · simp only [bufLen]; split <;> omega
+
+
+/-- buffer_commit() after a successful prepare: the new length is exact (no 32-bit truncation) -/
+theorem commit_spec (b : Buf) (m : Nat) (h : bufLen b + m + 1 ≤ 4294967295) :
+    commit b m = .ok ⟨bufLen b + m + 1, b.size⟩ := by
+  unfold commit bufLen
+  by_cases h0 : b.used = 0
+  · simp only [h0, if_true] at h ⊢
+    have h1 : ¬ (m + 1 > uszMax) := by rw [uszMax_eq]; simp only [bufLen, h0] at h; omega
+    simp only [if_neg h1, wrap32, u32Max_eq]
+    simp only [bufLen, h0, ne_eq, not_true_eq_false, if_false] at h
+    rw [Nat.mod_eq_of_lt (by omega)]
+    simp; omega
+  · simp only [if_neg h0] at h ⊢
+    simp only [bufLen, ne_eq, h0, not_false_eq_true, if_true] at h
+    have h1 : ¬ (m + b.used > uszMax) := by rw [uszMax_eq]; omega
+    simp only [if_neg h1, wrap32, u32Max_eq, ne_eq, h0, not_false_eq_true, if_true]
+    rw [Nat.mod_eq_of_lt (by omega)]
+    congr 1
+    simp; omega
+
+theorem extend_spec (b : Buf) (n : Nat) (hwf : b.used ≤ b.size) (hsz : b.size ≤ 2147483616)
+    (hn : b.used + n ≤ 4294967231) :
+    ∃ b', extend b n = .ok b' ∧ b'.used = bufLen b + n + 1 ∧ b'.used ≤ b'.size ∧ b'.size ≤ 4294967295 := by
+  obtain ⟨b1, h1, h2, h3, h4, h5, _⟩ := prepareAppend_spec b n hwf hsz hn
+  have hl := bufLen_le b hwf
+  have e : extend b n = match prepareAppend b n with
+      | .abort => .abort
+      | .ok b' => .ok { b' with used := wrap32 (bufLen b + n + 1) } := rfl
+  rw [e, h1]
+  have hw : wrap32 (bufLen b + n + 1) = bufLen b + n + 1 := by
+    simp only [wrap32, u32Max_eq]; rw [Nat.mod_eq_of_lt]; unfold bufLen; split <;> omega
+  refine ⟨_, rfl, hw, ?_, h5⟩
+  show wrap32 (bufLen b + n + 1) ≤ b1.size
+  rw [hw, ← h2]; exact h3
+
+
+/-! ### HTTP/2 length checks -/
+
+/-- padding that follows the fragment / data when the PADDED flag is set -/
+def padOf (flags : UInt8) (pad : Nat) : Nat := if has flags flagPadded then pad else 0
+
+theorem subU_ok (a b : Nat) (w : String) (h : b ≤ a) : subU a b w = .ok (a - b) := by
+  simp [subU, h]
+
+theorem h2HeadersLen_spec (flen : Nat) (flags : UInt8) (pad : Nat) :
+    (∀ w, h2HeadersLen flen flags pad ≠ .ub w) ∧
+    (∀ off alen, h2HeadersLen flen flags pad = .ok off alen → off + alen + padOf flags pad = flen) := by
+  unfold h2HeadersLen padOf subU
+  by_cases hp : has flags flagPadded = true
+  · by_cases h1 : flen < 1 + pad
+    · simp [hp, h1]
+    · have h1' : 1 + pad ≤ flen := by omega
+      by_cases hq : has flags flagPriority = true
+      · by_cases h2 : flen - (1 + pad) < 5
+        · simp [hp, h1, h1', hq, h2]
+        · have h2' : 5 ≤ flen - (1 + pad) := by omega
+          simp [hp, h1, h1', hq, h2, h2']; omega
+      · simp [hp, h1, h1', hq]; omega
+  · by_cases hq : has flags flagPriority = true
+    · by_cases h2 : flen < 5
+      · simp [hp, hq, h2]
+      · have h2' : 5 ≤ flen := by omega
+        simp [hp, hq, h2, h2']
+    · simp [hp, hq]
+
+theorem h2DataLen_spec (len : Nat) (flags : UInt8) (pad : Nat) :
+    (∀ w, h2DataLen len flags pad ≠ .ub w) ∧
+    (∀ off alen, h2DataLen len flags pad = .ok off alen → off + alen + padOf flags pad = len) := by
+  unfold h2DataLen padOf
+  by_cases hp : has flags flagPadded = true
+  · by_cases h1 : pad ≥ len
+    · simp [hp, h1]
+    · have h1' : 1 + pad ≤ len := by omega
+      simp [hp, h1, h1', subU]; omega
+  · simp [hp]
+
+
+/-! ### h2_recv_continuation() -/
+
+theorem u24_lt (bs : Bytes) (i : Nat) : u24 bs i < 16777216 := by
+  unfold u24
+  have h1 := (bs.getD i 0).toNat_lt
+  have h2 := (bs.getD (i + 1) 0).toNat_lt
+  have h3 := (bs.getD (i + 2) 0).toNat_lt
+  omega
+
+theorem h2ContCap_eq : Extracted.h2ContCap = 65536 := by decide
+
+/-- the CONTINUATION frames from offset `n` to `nEnd` are complete in `buf`; the last one (and
+    only the last one) carries END_HEADERS -/
+inductive Frames (buf : Bytes) : Nat → Nat → Prop
+  | last (n : Nat) : n + 9 + u24 buf n ≤ buf.length → has (buf.getD (n + 4) 0) flagEndHeaders = true →
+      Frames buf n (n + 9 + u24 buf n)
+  | more (n nEnd : Nat) : n + 9 + u24 buf n ≤ buf.length → has (buf.getD (n + 4) 0) flagEndHeaders = false →
+      Frames buf (n + 9 + u24 buf n) nEnd → Frames buf n nEnd
+
+theorem contScan_spec (fsize id : Nat) (buf : Bytes) (hlen : buf.length ≤ 2147483648) :
+    ∀ (fuel n loops : Nat), n ≤ buf.length → buf.length + 1 ≤ fuel + n →
+      (∀ w l, contScan fsize id buf fuel n loops ≠ .inl (.ub w, l)) ∧
+      (∀ nEnd l, contScan fsize id buf fuel n loops = .inr (nEnd, l) →
+        Frames buf n nEnd ∧ nEnd < Extracted.h2ContCap ∧ nEnd ≤ buf.length ∧ n + 9 ≤ nEnd) := by
+  intro fuel
+  induction fuel with
+  | zero => intro n loops h1 h2; omega
+  | succ fuel ih =>
+    intro n loops h1 h2
+    have hf := u24_lt buf n
+    simp only [contScan, u32Max_eq]
+    have c1 : ¬ (n + 9 > 4294967295) := by omega
+    simp only [if_neg c1]
+    by_cases c2 : buf.length < n + 9
+    · simp only [if_pos c2]
+      exact ⟨(by intro w l h; cases h), (by intro nEnd l h; cases h)⟩
+    · simp only [if_neg c2]
+      by_cases c3 : buf.getD (n + 3) 0 ≠ 9
+      · simp only [if_pos c3]
+        exact ⟨(by intro w l h; cases h), (by intro nEnd l h; cases h)⟩
+      · simp only [if_neg c3]
+        by_cases c4 : id ≠ u32be buf (n + 5)
+        · simp only [if_pos c4]
+          exact ⟨(by intro w l h; cases h), (by intro nEnd l h; cases h)⟩
+        · simp only [if_neg c4]
+          by_cases c5 : u24 buf n > fsize
+          · simp only [if_pos c5]
+            exact ⟨(by intro w l h; cases h), (by intro nEnd l h; cases h)⟩
+          · simp only [if_neg c5]
+            have c6 : ¬ (n + 9 + u24 buf n > 4294967295) := by omega
+            simp only [if_neg c6]
+            by_cases c7 : n + 9 + u24 buf n ≥ Extracted.h2ContCap
+            · simp only [if_pos c7]
+              exact ⟨(by intro w l h; cases h), (by intro nEnd l h; cases h)⟩
+            · simp only [if_neg c7]
+              by_cases c8 : buf.length < n + 9 + u24 buf n
+              · simp only [if_pos c8]
+                exact ⟨(by intro w l h; cases h), (by intro nEnd l h; cases h)⟩
+              · simp only [if_neg c8]
+                by_cases c9 : has (buf.getD (n + 4) 0) flagEndHeaders = true
+                · simp only [if_pos c9]
+                  refine ⟨(by intro w l h; cases h), ?_⟩
+                  intro nEnd l h
+                  simp only [Sum.inr.injEq, Prod.mk.injEq] at h
+                  obtain ⟨h, _⟩ := h
+                  subst h
+                  exact ⟨Frames.last n (by omega) c9, by omega, by omega, by omega⟩
+                · simp only [if_neg c9]
+                  obtain ⟨i1, i2⟩ := ih (n + 9 + u24 buf n) (loops + 1) (by omega) (by omega)
+                  refine ⟨i1, ?_⟩
+                  intro nEnd l h
+                  obtain ⟨f, g1, g2, g3⟩ := i2 nEnd l h
+                  exact ⟨Frames.more n nEnd (by omega) (by simpa using c9) f, g1, g2, by omega⟩
+
+theorem contMerge_spec (buf : Bytes) {n nEnd : Nat} (hf : Frames buf n nEnd) :
+    ∀ (fuel m : Nat) (acc : Bytes), m ≤ n → buf.length + 1 ≤ fuel + n →
+      ∃ m' acc', contMerge buf fuel n m acc = .ok (nEnd, m', acc') ∧ m ≤ m' ∧
+        m' + (n - m) + 9 ≤ nEnd ∧ acc'.length = acc.length + (m' - m) := by
+  induction hf with
+  | last n h1 h2 =>
+    intro fuel m acc hm hfuel
+    cases fuel with
+    | zero => omega
+    | succ fuel =>
+      simp only [contMerge]
+      have c1 : ¬ (n + 9 > buf.length) := by omega
+      have c2 : ¬ (n + 9 + u24 buf n > buf.length) := by omega
+      have c3 : ¬ (m > n) := by omega
+      simp only [if_neg c1, if_neg c2, if_neg c3, if_pos h2]
+      refine ⟨_, _, rfl, by omega, by omega, ?_⟩
+      simp only [List.length_append, List.length_take, List.length_drop]
+      omega
+  | more n nEnd h1 h2 _ ih =>
+    intro fuel m acc hm hfuel
+    cases fuel with
+    | zero => omega
+    | succ fuel =>
+      simp only [contMerge]
+      have c1 : ¬ (n + 9 > buf.length) := by omega
+      have c2 : ¬ (n + 9 + u24 buf n > buf.length) := by omega
+      have c3 : ¬ (m > n) := by omega
+      have c4 : ¬ (has (buf.getD (n + 4) 0) flagEndHeaders = true) := by rw [h2]; decide
+      simp only [if_neg c1, if_neg c2, if_neg c3, if_neg c4]
+      obtain ⟨m', acc', e, g1, g3, g4⟩ := ih fuel (m + u24 buf n)
+        (acc ++ (buf.drop (n + 9)).take (u24 buf n)) (by omega) (by omega)
+      refine ⟨m', acc', e, by omega, by omega, ?_⟩
+      rw [g4]
+      simp only [List.length_append, List.length_take, List.length_drop]
+      omega
+
+
+/-- h2_recv_continuation(): with the first frame complete in the buffer, no offset computation
+    wraps, nothing is read or moved outside the data present, the accumulated length stays
+    below the 64 KiB cap and the rewritten buffer is not longer than the original -/
+theorem h2Cont_spec (fsize : Nat) (buf : Bytes) (h0 : 9 + u24 buf 0 ≤ buf.length)
+    (hlen : buf.length ≤ 2147483648) :
+    (∀ w, h2Cont fsize buf ≠ .ub w) ∧
+    (∀ m out calm, h2Cont fsize buf = .merged m out calm →
+      9 ≤ m ∧ m < Extracted.h2ContCap ∧ m ≤ out.length ∧ out.length ≤ buf.length) := by
+  unfold h2Cont
+  simp only []
+  obtain ⟨s1, s2⟩ := contScan_spec fsize (u31be buf 5) buf hlen (buf.length + 1) (9 + u24 buf 0) 0 h0 (by omega)
+  cases hs : contScan fsize (u31be buf 5) buf (buf.length + 1) (9 + u24 buf 0) 0 with
+  | inl p =>
+    obtain ⟨o, l⟩ := p
+    cases o with
+    | ub w => exact absurd hs (s1 w l)
+    | incomplete need => exact ⟨(by intro w h; cases h), (by intro m out calm h; cases h)⟩
+    | goaway code => exact ⟨(by intro w h; cases h), (by intro m out calm h; cases h)⟩
+  | inr p =>
+    obtain ⟨nEnd, loops⟩ := p
+    obtain ⟨hfr, hcap, hend, hge⟩ := s2 nEnd loops hs
+    simp only []
+    generalize hk : (if has (buf.getD (9 + u24 buf 0 + 4) 0) flagPriority = true then 5 else 0) = kk
+    by_cases hc1 : (has (buf.getD 4 0) flagPadded && decide (u24 buf 0 < 1 + (buf.getD 9 0).toNat + kk)) = true
+    · simp only [if_pos hc1]
+      exact ⟨(by intro w h; cases h), (by intro m out calm h; cases h)⟩
+    · simp only [if_neg hc1]
+      by_cases hc2 : (has (buf.getD 4 0) flagPadded && decide (9 + u24 buf 0 < (buf.getD 9 0).toNat)) = true
+      · exfalso
+        simp only [Bool.and_eq_true, decide_eq_true_eq, not_and, Nat.not_lt] at hc1 hc2
+        have := hc1 hc2.1
+        omega
+      · simp only [if_neg hc2]
+        generalize hm0 : (if has (buf.getD 4 0) flagPadded = true then 9 + u24 buf 0 - (buf.getD 9 0).toNat
+          else 9 + u24 buf 0) = m0
+        have hm0b : 9 ≤ m0 ∧ m0 ≤ 9 + u24 buf 0 := by
+          by_cases hp : has (buf.getD 4 0) flagPadded = true
+          · rw [if_pos hp] at hm0
+            simp only [hp, Bool.true_and, decide_eq_true_eq, Nat.not_lt] at hc1
+            omega
+          · rw [if_neg hp] at hm0; omega
+        generalize hhead : (if has (buf.getD 4 0) flagPadded = true then (buf.take m0).set 9 0 else buf.take m0) = head
+        have hheadlen : head.length = m0 := by
+          rw [← hhead]; split <;> simp <;> omega
+        obtain ⟨m', acc', e, g1, g2, g3⟩ := contMerge_spec buf hfr (buf.length + 1) m0 head (by omega) (by omega)
+        simp only [e]
+        have c : ¬ (m' < 9) := by omega
+        simp only [if_neg c]
+        refine ⟨(by intro w h; cases h), ?_⟩
+        intro m out calm h
+        simp only [ContOut.merged.injEq] at h
+        obtain ⟨h1, h2, _⟩ := h
+        subst h1
+        have hol : out.length = m' + (if nEnd < buf.length then buf.length - nEnd else 0) := by
+          rw [← h2]
+          simp only [List.length_append, setU24, List.length_cons, List.length_nil, List.length_drop, g3, hheadlen]
+          split <;> simp <;> omega
+        refine ⟨by omega, by omega, ?_, ?_⟩
+        · rw [hol]; omega
+        · rw [hol]; split <;> omega
+
+
+section RangeArith
+open Range
+
+/-! ### http_range.c arithmetic (over Model/Range.lean and Proofs/Range.lean) -/
+
+theorem rangeSuffixChk_spec (n len : Int) (hlen : 0 < len) (hmax : len ≤ LLONG_MAX)
+    (hn : n < 0) (hmin : LLONG_MIN ≤ n) (hne : n ≠ LLONG_MIN) :
+    rangeSuffixChk n len = .ok (if len > -n then len + n else 0, len - 1) := by
+  rw [llmax_eq] at hmax
+  rw [llmin_eq] at hmin hne
+  unfold rangeSuffixChk
+  rw [llmin_eq]
+  have h1 : inI64 (-n) = true := by rw [inI64_iff]; omega
+  have h2 : inI64 (len - 1) = true := by rw [inI64_iff]; omega
+  simp only [if_neg hne, h1, h2, Bool.not_true, Bool.false_eq_true, if_false]
+  by_cases h3 : len > -n
+  · have h4 : inI64 (len + n) = true := by rw [inI64_iff]; omega
+    simp only [if_pos h3, h4, Bool.not_true, Bool.false_eq_true, if_false]
+  · simp only [if_neg h3]
+
+theorem rangeStepChk_spec (len : Int) (hmax : len ≤ LLONG_MAX) (st : PSt) (rg : Rng)
+    (hrg : InB len rg) : rangeStepChk st rg = .ok (parseStep st rg) := by
+  rw [llmax_eq] at hmax
+  unfold rangeStepChk
+  split
+  · rfl
+  · split
+    · have h : inI64 (rg.1 - 80) = true := by
+        rw [inI64_iff]; obtain ⟨a, b, c⟩ := hrg; omega
+      simp only [h, Bool.not_true, Bool.false_eq_true, if_false]
+    · rfl
+
+theorem rangeOverlapsChk_spec (len : Int) (hmax : len ≤ LLONG_MAX) (b e : Int) (r : Rng)
+    (hb : InB len (b, e)) (hr : InB len r) : rangeOverlapsChk b e r = .ok (overlaps b e r) := by
+  rw [llmax_eq] at hmax
+  obtain ⟨a1, a2, a3⟩ := hb
+  obtain ⟨b1, b2, b3⟩ := hr
+  simp only at a1 a2 a3
+  unfold rangeOverlapsChk
+  split
+  · have h : inI64 (r.1 - 80) = true := by rw [inI64_iff]; omega
+    simp only [h, Bool.not_true, Bool.false_eq_true, if_false]
+  · have h : inI64 (b - 80) = true := by rw [inI64_iff]; omega
+    simp only [h, Bool.not_true, Bool.false_eq_true, if_false]
+
+/-- the parser state never holds more ranges than its current limit, and the limit never exceeds RMAX:
+    every `ranges[n]`, `ranges[n+1]` write of http_range_parse() is inside `off_t ranges[RMAX*2]` -/
+theorem parseStep_len_lim (st : PSt) (rg : Rng) (h1 : st.rs.length < st.lim) (h2 : st.lim ≤ RMAX) :
+    (parseStep st rg).1.rs.length ≤ (parseStep st rg).1.lim ∧ (parseStep st rg).1.lim ≤ RMAX := by
+  have hu : RMAX_UNSORTED ≤ RMAX := by decide
+  unfold parseStep
+  split
+  · rename_i hrs; simp only [List.length_cons, List.length_nil]; rw [hrs] at h1; omega
+  · rename_i prev more hrs
+    rw [hrs] at h1
+    simp only [List.length_cons] at h1
+    split
+    · split
+      · simp only [List.length_cons]; omega
+      · simp only [List.length_cons]; omega
+    · split
+      · rw [hrs]; simp only [List.length_cons]; omega
+      · simp only [List.length_cons]; omega
+
+theorem parseLoop_len (len : Int) (ps : List Bytes) : ∀ st : PSt, st.rs.length < st.lim → st.lim ≤ RMAX →
+    (parseLoop len st ps).rs.length ≤ RMAX := by
+  induction ps with
+  | nil => intro st h1 h2; simp only [parseLoop]; omega
+  | cons p ps ih =>
+    intro st h1 h2
+    unfold parseLoop
+    split
+    · exact ih st h1 h2
+    · rename_i rg _
+      obtain ⟨g1, g2⟩ := parseStep_len_lim st rg h1 h2
+      simp only
+      split
+      · omega
+      · rename_i hc
+        simp only [not_or, Nat.not_le] at hc
+        exact ih _ hc.2 g2
+
+theorem coalescePass_len {l l' : List Rng} (h : coalescePass l = some l') : l'.length ≤ l.length := by
+  have := coalescePass_length h; omega
+
+theorem parse_len (s : Bytes) (len : Int) : (parse s len).length ≤ RMAX := by
+  unfold parse
+  have h0 := parseLoop_len len (splitOn 44 s) { rs := [], lim := RMAX } (by simp; decide) (Nat.le_refl _)
+  simp only
+  split
+  · simpa using h0
+  · split
+    · simpa using h0
+    · refine coalesce_preserves (P := fun l => l.length ≤ RMAX) ?_ _ (by simpa using h0)
+      intro l l' hc hl
+      have := coalescePass_len hc
+      omega
+
+
+end RangeArith
+
 end Arith
 end LtVerif
